@@ -187,3 +187,12 @@ Fixpoint retain_valid (l : list N) (next : N) (steps : list rstep) : Prop :=
   | RCk :: r => retain_valid (l ++ [next]) (next + 1) r
   | RRt id :: r => In id l /\ retain_valid (retain_only [id] l) next r
   end.
+
+(* jobs.New: LoadCheckpoint over the listed snapshot files; any error of reading the chosen file makes the job
+   refuse to start (None); otherwise it starts from the loaded checkpoint (Some (Some id)) or, with an empty
+   storage, from nothing (Some None).  fault: 0 none, otherwise the read of the chosen file fails. *)
+Definition job_start (ids : list N) (fault : N) : option (option N) :=
+  match load false ids with
+  | None => Some None
+  | Some l => if fault =? 0 then Some (Some l) else None
+  end.
